@@ -137,6 +137,44 @@ fn table(r: &Resp) -> Option<(&'static str, Vec<(&'static str, &'static str)>, O
     })
 }
 
+/// Replace about one leaf in four of a JSON value by another value of the same JSON type.
+fn perturb(v: &mut Value, t: &mut Tape, depth: usize) {
+    use crate::tape::DATA;
+    match v {
+        Value::Object(o) => {
+            for (_, x) in o.iter_mut() {
+                perturb(x, t, depth + 1);
+            }
+        }
+        Value::Array(a) => {
+            match t.draw(DATA, 6) {
+                0 => a.clear(),
+                1 => a.truncate(1),
+                2 if !a.is_empty() && a.len() < 300 => {
+                    let x = a[0].clone();
+                    a.push(x);
+                }
+                _ => {}
+            }
+            for x in a.iter_mut().take(8) {
+                perturb(x, t, depth + 1);
+            }
+        }
+        Value::Number(n) if t.draw(DATA, 4) == 0 => {
+            if n.is_f64() {
+                *v = serde_json::json!(*t.pick(DATA, &[0.0f64, 1.0, -1.0, 0.5, 1e9]));
+            } else {
+                *v = serde_json::json!(*t.pick(DATA, &[0u64, 1, 2, 3, 127, 255]));
+            }
+        }
+        Value::String(s) if t.draw(DATA, 4) == 0 => {
+            *s = (*t.pick(DATA, &["", "x", "a/b", " ", "0", "true"])).to_string();
+        }
+        Value::Bool(b) if t.draw(DATA, 4) == 0 => *b = !*b,
+        _ => {}
+    }
+}
+
 pub fn check_view(out: &mut CaseOut, r: &Resp) {
     let Some(c) = r.common() else { return };
     let Some((ty, scalars, players)) = table(r) else { return };
@@ -273,6 +311,18 @@ impl Prop for C15 {
         if let Some(Ok(r)) = &run.result {
             check_view(&mut out, r);
             out.nontrivial = r.common().is_some();
+            // responses that no wire produces: the same value with some of its numbers, strings, options
+            // and lists replaced (counts that disagree with the lists, zero limits, empty lists and names),
+            // rebuilt through the type's own Deserialize
+            let tape = &mut run.world.tape;
+            for _ in 0 .. 3 {
+                let mut j = r.to_json();
+                perturb(&mut j, tape, 0);
+                if let Some(r2) = r.rebuild(j) {
+                    out.probe("directly_built_value_checked");
+                    check_view(&mut out, &r2);
+                }
+            }
         }
         out.absorb(&run.world);
         out.nontrivial = out.nontrivial && matches!(run.result, Some(Ok(_)));
@@ -290,7 +340,7 @@ impl Prop for C15 {
 
     fn assumptions(&self) -> Vec<String> {
         vec![
-            "a pure projection with no schedule or fault in it: the simulator contributes only wire-obtained responses; values that can only be built directly (not reachable through any wire) are not covered".into(),
+            "a pure projection with no schedule or fault in it: the simulator contributes the wire-obtained responses; on top of each, three variants that no wire produces are built through the type's own Deserialize (about one leaf in four replaced: counts that disagree with the lists, zero limits, empty lists and names, flipped flags) and judged by the same table".into(),
             "the Bedrock game mode (an enum without a textual form) is not judged although RESPONSES.md lists it".into(),
         ]
     }
